@@ -96,6 +96,7 @@ def run(chk):
     try:
         cases = [gen_case(rng, i) for i in range(n)]
         cases += fixed_cases()
+        cases += dual_route_cases(rng, 40 if quick else 600)
         with open(os.path.join(tmp, "m.txt"), "w") as fm, open(os.path.join(tmp, "c.txt"), "w") as fc:
             for i, c in enumerate(cases):
                 root = os.path.join(tmp, "t%d" % i)
@@ -137,6 +138,29 @@ def run(chk):
                             "bloch.lang, bloch.x, the same module shadowed in several roots, symbol and wildcard imports, diamonds and cycles, wrong/missing "
                             "package lines, 0/1/2 mains, random entry, search-path list and cwd; plus hand-written diamond / cycle / shadowing / wildcard cases. "
                             "Merged function order or the diagnostic class+category is compared with the extracted model"})
+
+def dual_route_cases(rng, n):
+    """one file reached under two package names: importer-relative resolution makes proj/x/y/C.bloch the target of `y.C` (from a file in
+    proj/x) and of `x.y.C` / `x.y.*` (from proj); it can declare only one of the two packages, so one of the imports must be refused - whichever
+    comes first, and also when the file is already loaded"""
+    out = []
+    for i in range(n):
+        ids = [0]
+        def f(pkg, imports=(), mains=0):
+            ids[0] += 1
+            return {"pkg": pkg, "imports": list(imports), "mains": mains, "id": 2000 + ids[0]}
+        decl = rng.choice([["y"], ["x", "y"], ["x", "y"], []])
+        second = rng.choice(["W:x.y", "W:x.y", "S:x.y.C"])
+        first = "S:x.A"
+        imports = [first, second] if rng.random() < 0.6 else [second, first]
+        files = {"proj/Main.bloch": f([], imports, 1), "proj/x/A.bloch": f(["x"], [rng.choice(["S:y.C", "W:y"])]), "proj/x/y/C.bloch": f(decl)}
+        if rng.random() < 0.5:
+            files["proj/x/y/D.bloch"] = f(rng.choice([["x", "y"], ["y"]]))
+        if rng.random() < 0.3:
+            files["lib1/x/y/C.bloch"] = f(["x", "y"])
+        out.append({"files": files, "entry": "proj/Main.bloch", "search": rng.choice([[], ["lib1"]]), "cwd": rng.choice(["proj", "work"])})
+    return out
+
 
 def fixed_cases():
     def f(pkg, imports=(), mains=0, i=[0]):
